@@ -18,8 +18,8 @@ Theorem C06_display_typed : forall t, format_panics cfg P t = false.
 Proof. apply display_no_panic_P. Qed.
 Print Assumptions C06_display_typed.
 (* the keys of the typed qualifiers shipped with the crate are valid, so insert_typed does not panic for them *)
-Theorem C06_typed_keys_valid : valid_key cfg s_checksum = true /\ valid_key cfg s_repo = true.
-Proof. split; vm_compute; reflexivity. Qed.
+Theorem C06_typed_keys_valid : valid_key cfg s_checksum = true /\ valid_key cfg s_repo = true /\ Forall (fun k => valid_key cfg k = true) (typed_keys cfg) /\ length (typed_keys cfg) = 7%nat.
+Proof. split; [vm_compute; reflexivity|]. split; [vm_compute; reflexivity|]. split; [|reflexivity]. apply Forall_forall. apply forallb_forall. vm_compute. reflexivity. Qed.
 Print Assumptions C06_typed_keys_valid.
 (* the comparator used by the binary search is total: partial_cmp never yields None *)
 Theorem C06_comparator_total : forall a b, exists c, qkey_cmp cfg a b = c.
@@ -27,7 +27,7 @@ Proof. intros a b. eexists. reflexivity. Qed.
 Print Assumptions C06_comparator_total.
 (* the executed operation languages (what the correspondence check runs against the crate) panic only where documented *)
 Theorem C06_qualifiers_panic_only_index_of_absent_key : forall q o, QInv cfg q -> snd (qxstep cfg q o) = XoPanic ->
-  exists k, (o = QIdx k \/ exists v, o = QIdxSet k v) /\ q_get cfg q k = None.
+  (exists k, (o = QIdx k \/ exists v, o = QIdxSet k v) /\ q_get cfg q k = None) \/ (exists i v, o = QTKIns i v /\ (length (typed_keys cfg) <= i)%nat).
 Proof. apply qxstep_panics_only_when_documented; try sc; vm_compute; reflexivity. Qed.
 Print Assumptions C06_qualifiers_panic_only_index_of_absent_key.
 Theorem C06_builder_calls_never_panic : forall (T : Type) (b : T * parts) o, xstep cfg b o <> Err StopPanic.
